@@ -115,6 +115,30 @@ func classify(sc *Scenario, r Result) (bool, []string) {
 			cl = append(cl, "has-failing-element")
 		}
 		return fails >= 1 && succ >= 1 && succAfter, cl
+	case "C09":
+		cl = append(cl, "par="+strconv.Itoa(sc.Par))
+		if r.Reordered {
+			cl = append(cl, "release-order!=arrival-order")
+		}
+		if r.MaxInflight >= 2 {
+			cl = append(cl, "inflight>=2")
+		}
+		return sc.Par >= 2 && n >= sc.Par+1 && r.Reordered, cl
+	case "C10":
+		cm := sc.cm()
+		cl = []string{"monoid=" + cm.name, "par=" + strconv.Itoa(sc.Par)}
+		switch {
+		case n == 0:
+			cl = append(cl, "input-empty")
+		case n < sc.Par:
+			cl = append(cl, "input<par")
+		default:
+			cl = append(cl, "input>=par")
+		}
+		if r.Reordered {
+			cl = append(cl, "release-order!=arrival-order")
+		}
+		return cm.empty != 0 || (n >= sc.Par && sc.Par >= 2), cl
 	case "C08":
 		cl = []string{"cap=" + strconv.Itoa(sc.Caps0()), "end=" + sc.Mode}
 		if r.Backpressure {
@@ -252,6 +276,61 @@ func TestC11(t *testing.T) {
 
 func TestC13(t *testing.T) {
 	rapid.Check(t, func(rt *rapid.T) { checkWith(t, rt, "C13", "TestC13", genC13(rt), ExecTimed) })
+}
+
+func TestC09(t *testing.T) {
+	rapid.Check(t, func(rt *rapid.T) { check(t, rt, "C09", "TestC09", genC09(rt), 1) })
+}
+
+func TestC10(t *testing.T) {
+	rapid.Check(t, func(rt *rapid.T) { check(t, rt, "C10", "TestC10", genC10(rt), 1) })
+}
+
+// TestC09Race / TestC10Race: the same scenario families free-running under the race detector.
+func raceProp(t *testing.T, prop, test string, gen func(*rapid.T) *Scenario) {
+	rapid.Check(t, func(rt *rapid.T) {
+		sc := gen(rt)
+		sc.Script, sc.Gated, sc.NoFinish = nil, false, false
+		sc.N = 0
+		if rapid.IntRange(0, 3).Draw(rt, "cancel") == 0 {
+			sc.N = rapid.IntRange(1, 12).Draw(rt, "cancelAfter")
+		}
+		procs := rapid.SampledFrom([]int{1, 2, 4, 16}).Draw(rt, "gomaxprocs")
+		sc.Unit = procs // recorded in the scenario (Unit is otherwise unused by fork scenarios)
+		vk.Journal(prop, test, sc)
+		msg, timedOut := runFree(sc, procs)
+		if timedOut {
+			panic("test timed out (free-running tier): " + msg)
+		}
+		vk.Record(sc, sc.Par >= 2 && len(sc.In[0]) >= sc.Par+1, "free-running", "gomaxprocs="+strconv.Itoa(procs), "stage="+sc.Stage)
+		if msg != "" {
+			vk.Fail(prop, test, "", sc, msg)
+			rt.Fatalf("%s", msg)
+		}
+	})
+}
+
+func TestC09Race(t *testing.T) { raceProp(t, "C09", "TestC09Race", genC09) }
+func TestC10Race(t *testing.T) { raceProp(t, "C10", "TestC10Race", genC10) }
+
+func TestReplayFree(t *testing.T) {
+	var sc Scenario
+	ok, err := vk.LoadReplay(&sc)
+	if !ok {
+		t.Skip("no VERIF_REPLAY")
+	}
+	if err != nil {
+		t.Fatalf("bad replay file: %v", err)
+	}
+	for a := 0; a < min(attempts(), 50); a++ {
+		msg, timedOut := runFree(&sc, max(sc.Unit, 1))
+		if timedOut {
+			panic("test timed out (free-running tier): " + msg)
+		}
+		if msg != "" {
+			t.Fatalf("attempt %d: %s", a+1, msg)
+		}
+	}
 }
 
 func TestC12(t *testing.T) {
